@@ -135,6 +135,17 @@ def run(tier, v):
                                       "got": f["got"]},
                         replay_files={"case.rs": f["code"], "cfg.yaml": gen.all_configs()[f["cfg"]]},
                         replay_cmd="printf '0\\t%s\\n' \"$(python3 -c \"import sys;print(open('case.rs').read().replace('\\\\\\\\','\\\\\\\\\\\\\\\\').replace('\\\\n','\\\\\\\\n').replace('\\\\t','\\\\\\\\t').replace('\\\\r','\\\\\\\\r'),end='')\")\" | /verif/.build/vh/release/vh eval cfg.yaml")
+    # order independence: entries for a file must not depend on what the same process parsed before it
+    import multiprocessing
+    core = list(core_product())
+    oi = [build_one(t) for t in core[::max(1, len(core) // 240)]]
+    with multiprocessing.Pool(vh.NCPU) as p2:
+        bad = vh.order_independence([(c[0], c[1]) for c in oi], p2)
+    v.count(len(oi) ** 2)
+    v.subspace("order independence in-process: every ordered pair (A, B) of %d core cases" % len(oi), len(oi) ** 2)
+    for a_idx, b_idx, want, got in bad[:100]:
+        v.violation("result-depends-on-previously-parsed-file", {"previous_file": oi[a_idx][1], "file": oi[b_idx][1], "alone": repr(want)[:300],
+                                                                 "after_previous": repr(got)[:300]}, replay_files={"previous.rs": oi[a_idx][1], "case.rs": oi[b_idx][1]})
     pool.close()
     # binding pass: the same core cases through the real CLI (check report + edit diff == in-process entries)
     nb, bfails = clibind.bind(list(itertools.islice(core_product(), 0, None, 11 if tier == "quick" else 3)), build_one, v)
